@@ -1,18 +1,32 @@
 """C05 - inline-storage promise: no dynamic allocation within N."""
 from .. import matrix
-from ..rules import callgraph
+from ..rules import callgraph, shape, shape2, encoding
 
 
 def run(tier, runner):
-    fcv = [p for p in matrix.vec_points(tier) if p.flavour == 'fcv']
-    progs = matrix.programs(runner, fcv)
+    allp = matrix.vec_points(tier)
+    progs_all = matrix.programs(runner, allp)
+    progs = [p for p in progs_all if p.meta['flavour'] == 'fcv']
+    small = [p for p in progs_all if p.meta['flavour'] == 'small']
     r1 = callgraph.noalloc(progs)
     r1.require(40, 'FixedCapacityVector members')
+    r_cs = shape.cap_stable(small)
+    r_gg = shape.grow_guard(small)
+    r_span = shape2.inline_span(progs_all)
+    r_w = encoding.enc_w(small)
+    r_r = encoding.enc_r(small)
+    r_cs.require(20, 'SmallVector mutators')
+    r_gg.require(7, 'grow call sites')
+    r_span.require(6, 'inline layouts')
     return {
-        'results': [r1],
+        'results': [r1, r_cs, r_gg, r_span, r_w, r_r],
         'explanation': 'NOALLOC: on the complete resolved call graph of every FixedCapacityVector instantiation (all public members, '
                        'all archetypes, both growing policies; bodies of std algorithms included) no allocation request (malloc/realloc/'
-                       'operator new/get_temporary_buffer/any allocator allocate) is reachable.',
-        'assumptions': ['the allocation of an exception object is not an AST call and is outside the property'],
+                       'operator new/get_temporary_buffer/any allocator allocate) is reachable.  SmallVector, structural half: CAP-STABLE (an allocator request is reachable from the '
+                       'mutators only through grow), GROW-GUARD (grow only when capacity() is insufficient), INLINE-SPAN (the elements live inside the '
+                       'object), ENC-W / ENC-R (capacity() can report N while inline because the encoding is only written and read through its discipline).',
+        'assumptions': ['the allocation of an exception object is not an AST call and is outside the property',
+                        'capacity() == N in every reachable inline state is a relation between run-time words and is not decided',
+                        'SmallSet: see C04 (SS-STATE); whether std::set allocates for an empty set is a run-time matter of the standard library'],
         'trusted': ['resolved call graph exported by the amcsa plugin', 'libstdc++ 12 headers'],
     }
